@@ -114,15 +114,50 @@ def _relid(t, src_q, dst_q):
     return tuple(_relid(x, src_q, dst_q) if isinstance(x, tuple) else x for x in t)
 
 
+def _loop_names_in_order(lp):
+    """Loop-carried names in the order of their first (re)binding in the loop body."""
+    order = []
+
+    def add(n):
+        if n in lp.next and n not in order:
+            order.append(n)
+
+    for node in ast.walk(ast.Module(body=lp.node.body, type_ignores=[])):
+        if isinstance(node, ast.Name) and isinstance(node.ctx, (ast.Store, ast.Load)):
+            add(node.id)
+    for n in sorted(lp.next):
+        add(n)
+    return order
+
+
 def _loop_pieces(prog, q):
     out = []
     for k, lid in enumerate(_loops_of(prog, q)):
         lp = prog.loops[lid]
         out.append((f"loop {k + 1} iterable", lp.iter))
-        for n in sorted(lp.next):
-            out.append((f"loop {k + 1} update of {n}", lp.next[n]))
-            out.append((f"loop {k + 1} initial {n}", lp.init[n]))
+        for i, n in enumerate(_loop_names_in_order(lp)):
+            out.append((f"loop {k + 1} update of variable #{i + 1}", lp.next[n]))
+            out.append((f"loop {k + 1} initial value of variable #{i + 1}", lp.init[n]))
     return out
+
+
+def _loop_name_map(prog, ref_q, actual_q):
+    """{(ref lid, ref name): (actual lid, actual name)} pairing loops and carried names by position."""
+    m = {}
+    la, lr = _loops_of(prog, actual_q), _loops_of(prog, ref_q)
+    for a, r in zip(la, lr, strict=False):
+        na, nr = _loop_names_in_order(prog.loops[a]), _loop_names_in_order(prog.loops[r])
+        for x, y in zip(nr, na, strict=False):
+            m[(r, x)] = (a, y)
+        # loop targets
+        ta = [n for (lid_, n) in prog.loopvar_paths if lid_ == a]
+        tr = [n for (lid_, n) in prog.loopvar_paths if lid_ == r]
+        pa = {prog.loopvar_paths[(a, n)]: n for n in ta}
+        for n in tr:
+            path = prog.loopvar_paths[(r, n)]
+            if path in pa:
+                m[(r, n)] = (a, pa[path])
+    return m
 
 
 def compare(ctx: Ctx, actual_q: str, ref_name: str, what: str, *, decorated=False):
@@ -233,22 +268,30 @@ def reify_closures(prog, t, depth=0):
     if is_term(t) and t[0] == "closure" and len(t) == 3 and isinstance(t[2], int):
         cid = t[2]
         info, snapshot, _conds = prog.closures[cid]
-        parent = info.parent or ""
-        sibs = sorted(c for c, (i, _s, _c) in prog.closures.items() if i.parent == parent and _same_instance(prog, c, cid))
-        ordinal = _def_ordinal(prog, info)
         cap = ()
         if depth < 3:
             free = _free_names(info.node)
             cap = tuple(sorted(
-                (("cap", n, reify_closures(prog, snapshot[n], depth + 1)) for n in free
+                (("cap", reify_closures(prog, snapshot[n], depth + 1)) for n in free
                  if n in snapshot and n != info.node.name),
-                key=lambda kv: kv[1]))
-        return ("closure", _short_q(parent), ordinal, cap)
+                key=repr))
+        return ("closure", _closure_path(prog, info), cap)
     return tuple(reify_closures(prog, x, depth) if isinstance(x, tuple) else x for x in t)
 
 
 def _same_instance(prog, a, b):
     return True
+
+
+def _closure_path(prog, info):
+    """(top-level function short name, ordinals of the nested defs along the nesting)."""
+    path = []
+    cur = info
+    while cur is not None and cur.parent is not None:
+        path.append(_def_ordinal(prog, cur))
+        cur = prog.funcs.get(cur.parent)
+    top = cur.qualname if cur is not None else ""
+    return (_short_q(top), tuple(reversed(path)))
 
 
 def norm_safe(t):
@@ -265,7 +308,8 @@ def _def_ordinal(prog, info):
         if isinstance(n, (ast.FunctionDef, ast.AsyncFunctionDef)) and n is not pinfo.node:
             if n is info.node:
                 return k
-            k += 1
+            if getattr(n, "_lcmsa_q", "") and prog.funcs.get(n._lcmsa_q) is not None and prog.funcs[n._lcmsa_q].parent == pinfo.qualname:  # noqa: SLF001
+                k += 1
     return k
 
 
@@ -344,6 +388,9 @@ def compare_factory(ctx: Ctx, actual_q: str, ref_name: str, what: str):
             mapping[("param", qx.qualname, a)] = ("param", qy.qualname, b)
     idx_a = {c: i for i, c in enumerate(ca)}
     idx_r = {c: i for i, c in enumerate(cr)}
+    lmap = {}
+    for rq, aq in qmap.items():
+        lmap.update(_loop_name_map(prog, rq, aq))
 
     def canon(t, idx, is_ref):
         if not isinstance(t, tuple):
@@ -351,6 +398,9 @@ def compare_factory(ctx: Ctx, actual_q: str, ref_name: str, what: str):
         if is_term(t) and t[0] == "param" and t in mapping:
             return mapping[t]
         if is_ref and is_term(t) and t[0] in ("loopvar", "carried", "loopout") and isinstance(t[1], str):
+            if (t[1], t[2]) in lmap:
+                a_lid, a_name = lmap[(t[1], t[2])]
+                return (t[0], a_lid, a_name)
             q, _, rest = t[1].partition(":")
             if q in qmap:
                 return (t[0], f"{qmap[q]}:{rest}", *t[2:])
@@ -584,6 +634,8 @@ ker_template = factory_rule("KER.template", gen("input_processing.create_params_
 ]))
 ker_funcrep_guard = factory_rule("KER.funcrepguard", gen("function_representation", [
     ("_fail_if_interpolation_axes_are_not_last", "interpolation axes must be the trailing axis names"),
+    ("get_function_representation", "label translators, indexer lookup in the indexer's own axis order, array lookup on the "
+     "leading axes, coordinate finders and interpolator on the trailing axes, chained as one DAG"),
 ]))
 ker_nextstate_dag = factory_rule("KER.nextstatedag", gen("next_state", [
     ("get_next_state_function", "dispatch on target"),
